@@ -89,6 +89,27 @@ CHECKS.update({
              'the errored set is the per-call obligation errored-set-only-'
              'grows plus induction over calls.',
         ref='DESIGN.md section 4 C06'),
+    'C10': dict(
+        text='(1) Regular-language lemmas (z3 RegLan, translated on every run '
+             'from the real pattern strings in UNIT_SYSTEM_INFO via CPython\'s '
+             'own regex parser): what each unit system accepts under re.match '
+             'equals the documented grammar [sign]number[prefix]unit with '
+             'exactly that system\'s prefixes; exponent table and units '
+             'constants checked entry by entry. (2) The body of '
+             'string_to_bytes proved for every (system, prefix, unit, '
+             'return_int) combination - a finite exhaustive split - with the '
+             'number an arbitrary string of the number grammar: result == '
+             'NUM*base^exp (/8 for bits), ceiling for return_int; rejected '
+             'text / unknown system raise ValueError and nothing else. (3) '
+             'QemuImgInfo._extract_bytes control flow ((N bytes) precedence, '
+             'unit completion, delegation with return_int). Bounded '
+             'stand-in: the real functions on an enumerated family with an '
+             'exact rational oracle (float rounding is outside the proof).',
+        note='A-FLOAT (floats as reals; float() total on the number grammar); '
+             'A-RE (regex match returns the groups of the accepted text; only '
+             'the accepted LANGUAGE is proved); strings over code points <= '
+             '0x2FFFF; pyvc, z3.',
+        ref='DESIGN.md section 4 C10'),
     'C05': dict(
         text='len(region.data) <= region.length is preserved by both capture '
              'methods for any chunk; every fixed-layout inspector has the '
